@@ -16,13 +16,13 @@ var rawNumEdges = [][]byte{{}, {0x80}, {0x00}, {0x00, 0x80}, {0x01, 0x00}, {0xff
 	{0x00, 0x00, 0x00, 0x00, 0x80}, {0x01, 0x00, 0x00, 0x00, 0x00}, {0xff, 0xff, 0xff, 0xff, 0x7f}}
 
 type soupState struct {
-	stack     [][]byte
-	alt       int
-	cond      int
-	exec      bool
-	ops       int
-	err       refscript.ScriptError
-	dead      bool // failed with something else than an open conditional
+	stack [][]byte
+	alt   int
+	cond  int
+	exec  bool
+	ops   int
+	err   refscript.ScriptError
+	dead  bool // failed with something else than an open conditional
 }
 
 type souper struct {
